@@ -82,6 +82,10 @@ def check(ctx):
     r = ctx.tlc("Ring", "RingMCthorough.cfg" if ctx.thorough else "RingMC.cfg", workers=16, timeout=1500)
     if not r.ok:
         ctx.model_violation(r, "Ring invariants")
+    if ctx.thorough:   # size 8 (the next power of two) with two byte values; sizes 2..7 above with three
+        r = ctx.tlc("Ring", "RingMCthorough8.cfg", workers=16, timeout=1500)
+        if not r.ok:
+            ctx.model_violation(r, "Ring invariants (size 8)")
     r = ctx.tlc("Cyclic", "CyclicMC.cfg", workers=4, timeout=600)
     if not r.ok:
         ctx.model_violation(r, "Cyclic invariants")
